@@ -92,7 +92,7 @@ def gen_cases(ctx, out):
     runs = [("BrokerConn.gen.cfg", None, "gen"), ("BrokerConn.gen2.cfg", None, "gen2"), ("BrokerConn.genw.cfg", None, "genw")]
     if ctx.tier == "thorough":
         runs.append(("BrokerConn.gen4.cfg", None, "gen4"))
-        runs.append(("BrokerConn.sim.cfg", "num=4000", "sim"))
+        runs.append(("BrokerConn.sim.cfg", "num=3000", "sim"))
     else:
         runs.append(("BrokerConn.sim.cfg", "num=400", "sim"))
     seen = set()
